@@ -37,6 +37,16 @@ func c10TokenTextNotCut(w *World, r *Report, prop string) {
 		}
 		return false
 	}
+	seeds := tokenTextSeeds(cf)
+	if len(seeds) == 0 {
+		r.fail(rule, "token text found", "internal/parser/packet_dsl_formattor.go", "no GetText() call found in the formatter: the rule lost its sources")
+		return
+	}
+	c10TokenTextNotCutRest(w, r, rule, cf, seeds, isSplitter, prop)
+}
+
+// tokenTextSeeds: the GetText() calls on antlr / generated-parser types in the formatter's functions.
+func tokenTextSeeds(cf *cmtFlow) []ssa.Value {
 	var seeds []ssa.Value
 	for _, fn := range cf.fns {
 		forEachInstr(fn, func(_ *ssa.BasicBlock, ins ssa.Instruction) {
@@ -59,10 +69,10 @@ func c10TokenTextNotCut(w *World, r *Report, prop string) {
 			}
 		})
 	}
-	if len(seeds) == 0 {
-		r.fail(rule, "token text found", "internal/parser/packet_dsl_formattor.go", "no GetText() call found in the formatter: the rule lost its sources")
-		return
-	}
+	return seeds
+}
+
+func c10TokenTextNotCutRest(w *World, r *Report, rule string, cf *cmtFlow, seeds []ssa.Value, isSplitter func(*ssa.Function) bool, prop string) {
 	// derived text: identity flow plus trimming, case mapping, concatenation and formatting
 	set := cf.flowFrom(seeds)
 	for changed := true; changed; {
@@ -179,6 +189,139 @@ func c10TokenTextNotCut(w *World, r *Report, prop string) {
 		}
 	}
 	r.note("%s: %d GetText() sources, %d derived values followed", rule, len(seeds), len(set))
+	c10TokenTextNotAFormat(w, r, prop, cf, set)
+}
+
+// */token-text-not-a-format: text taken from a token never stands in the *format* position of a printf-style call of the
+// formatter. A '%' the author wrote (in a documentation string, a string key, a comment) would be read as a verb: the token is
+// printed as something else ("100% of" -> "100%!o(MISSING)f"), the compiled output changes, and the text changes again on the next
+// pass. The derived set is widened for this sink: a repository helper that is handed token text and hands back a string hands back
+// token text (an indentation helper, a joiner). Escaping is recognised: ReplaceAll(x, "%", "%%") ends the flow.
+func c10TokenTextNotAFormat(w *World, r *Report, prop string, cf *cmtFlow, base map[ssa.Value]bool) {
+	rule := prop + "/token-text-not-a-format"
+	if cf == nil {
+		cf = newCmtFlow(w)
+		base = cf.flowFrom(tokenTextSeeds(cf))
+	}
+	set := map[ssa.Value]bool{}
+	for v := range base {
+		set[v] = true
+	}
+	isEscape := func(c *ssa.Call) bool {
+		f := c.Call.StaticCallee()
+		if f == nil || f.Pkg == nil || f.Pkg.Pkg.Path() != "strings" || !strings.HasPrefix(f.Name(), "Replace") || len(c.Call.Args) < 3 {
+			return false
+		}
+		a, ok1 := c.Call.Args[1].(*ssa.Const)
+		b, ok2 := c.Call.Args[2].(*ssa.Const)
+		return ok1 && ok2 && a.Value != nil && b.Value != nil && a.Value.Kind() == constant.String && constant.StringVal(a.Value) == "%" && constant.StringVal(b.Value) == "%%"
+	}
+	for v := range set {
+		if c, ok := v.(*ssa.Call); ok && isEscape(c) {
+			delete(set, v)
+		}
+	}
+	for changed := true; changed; {
+		changed = false
+		var more []ssa.Value
+		for _, fn := range cf.fns {
+			forEachInstr(fn, func(_ *ssa.BasicBlock, ins ssa.Instruction) {
+				switch x := ins.(type) {
+				case *ssa.BinOp:
+					if x.Op == token.ADD && !set[x] && (set[x.X] || set[x.Y]) {
+						more = append(more, x)
+					}
+				case *ssa.Call:
+					if set[x] || !isStringType(x.Type()) || isEscape(x) {
+						return
+					}
+					f := x.Call.StaticCallee()
+					if f == nil {
+						return
+					}
+					if !(w.isSubjectFunc(f) || f.Pkg != nil && (f.Pkg.Pkg.Path() == "strings" || f.Pkg.Pkg.Path() == "fmt")) {
+						return
+					}
+					for _, a := range x.Call.Args {
+						if set[a] && isStringType(a.Type()) {
+							more = append(more, x)
+							return
+						}
+					}
+				}
+			})
+		}
+		for _, v := range more {
+			if !set[v] {
+				set[v] = true
+				changed = true
+			}
+		}
+		if len(more) > 0 {
+			for v := range cf.flowFrom(more) {
+				if c, ok := v.(*ssa.Call); ok && isEscape(c) {
+					continue
+				}
+				if !set[v] {
+					set[v] = true
+					changed = true
+				}
+			}
+		}
+	}
+	n := 0
+	var hits []*ssa.Call
+	for _, fn := range cf.fns {
+		forEachInstr(fn, func(_ *ssa.BasicBlock, ins ssa.Instruction) {
+			c, ok := ins.(*ssa.Call)
+			if !ok {
+				return
+			}
+			f := c.Call.StaticCallee()
+			if f == nil || f.Pkg == nil || f.Signature.Recv() != nil {
+				return
+			}
+			if p := f.Pkg.Pkg.Path(); p != "fmt" && p != "log" && p != "errors" {
+				return
+			}
+			params := f.Signature.Params()
+			for i := 0; i < params.Len() && i < len(c.Call.Args); i++ {
+				if params.At(i).Name() != "format" {
+					continue
+				}
+				n++
+				if set[c.Call.Args[i]] {
+					hits = append(hits, c)
+				}
+			}
+		})
+	}
+	sort.Slice(hits, func(i, j int) bool { return hits[i].Pos() < hits[j].Pos() })
+	bad := map[string]bool{}
+	for _, h := range hits {
+		k := fnKey(h.Parent())
+		if bad[k] {
+			continue
+		}
+		bad[k] = true
+		r.fail(rule, k+": formats are the formatter's own", w.instrPos(h), "text taken from GetText() reaches the format operand of "+calleeName(h)+": a '%' the author wrote in a string, a documentation string or a comment is read as a verb, the token is printed as something else and changes again on every further pass")
+	}
+	for _, fn := range cf.fns {
+		if fn.Parent() == nil && !bad[fnKey(fn)] {
+			has := false
+			forEachInstr(fn, func(_ *ssa.BasicBlock, ins ssa.Instruction) {
+				if c, ok := ins.(*ssa.Call); ok {
+					if f := c.Call.StaticCallee(); f != nil && f.Pkg != nil && f.Pkg.Pkg.Path() == "fmt" && strings.HasSuffix(f.Name(), "f") {
+						has = true
+					}
+				}
+			})
+			if has {
+				r.pass(rule, fnKey(fn)+": formats are the formatter's own", w.pos(fn.Pos()), "")
+			}
+		}
+	}
+	r.note("%s: %d printf-style calls in the formatter, %d values derived from token text", rule, n, len(set))
 }
 
 // C09|C10/sibling-independence: what the formatter prints for one child does not depend on its earlier siblings.
